@@ -79,6 +79,11 @@ func (self *BinaryConv) do(ctx context.Context, src []byte, desc *thrift.TypeDes
 		Buf: src,
 	}
 
+	// value-mapping annotations honour the converter's options (ByteAsUint8): publish them unless the caller did
+	if self.opts.EnableValueMapping && ctx != nil && ctx.Value(conv.CtxKeyConvOptions) == nil {
+		ctx = context.WithValue(ctx, conv.CtxKeyConvOptions, self.opts)
+	}
+
 	if desc.Type() != thrift.STRUCT {
 		return self.doRecurse(ctx, desc, out, resp, &p)
 	}
